@@ -168,9 +168,17 @@ def install(I):
         q = z3.Int(ctx.fresh_name("bs_q"))
         e = num(seq.elem(q))
         ctx.assume(z3.And(i >= 0, i <= n))
-        ctx.assume(z3.ForAll([q], z3.Implies(z3.And(0 <= q, q < n), (q < i) == ((e <= num(x)) if right else (e < num(x)))), patterns=[e]))
+        simple = z3.is_app(e) and e.decl().kind() == z3.Z3_OP_UNINTERPRETED
+        ctx.assume(z3.ForAll([q], z3.Implies(z3.And(0 <= q, q < n), (q < i) == ((e <= num(x)) if right else (e < num(x)))),
+                             **({"patterns": [e]} if simple else {})))
         return B.wrap(i)
+    def insort(ctx, lst, x, right=True):
+        i = bisect_left(ctx, lst, x, right=right)
+        m = I.getattr(ctx, lst, "insert")
+        I.call(ctx, m, [i, x], {})
     ext["bisect"] = {"bisect_left": Builtin("bisect.bisect_left", bisect_left),
+                     "insort": Builtin("bisect.insort", insort), "insort_right": Builtin("bisect.insort_right", insort),
+                     "insort_left": Builtin("bisect.insort_left", lambda ctx, lst, x: insort(ctx, lst, x, right=False)),
                      "bisect_right": Builtin("bisect.bisect_right", lambda ctx, lst, x: bisect_left(ctx, lst, x, right=True)),
                      "bisect": Builtin("bisect.bisect", lambda ctx, lst, x: bisect_left(ctx, lst, x, right=True))}
     ext["re"] = {"compile": Builtin("re.compile", re_compile),
